@@ -990,6 +990,87 @@ CORPUS_SETS = [DOLLAR_WITNESS,
                [[0, 0, 0, 0, ['a', 'b'], 0], [0, 0, 0, 0, ['a'], 0], [1, 0, 0, 0, ['a', 'b'], 0], [15, 0, 0, 0, [], 0], [1, 0, 0, 0, ['a'], 0], [14, 0, 0, 0, [], 0]],
                [[0, 0, 0, 0, ['a', 'b'], 1], [0, 1, 0, 0, ['a'], 0], [7, 0, 1, 0, [], 0], [8, 0, 1, 0, [], 0], [15, 0, 0, 0, [], 0]]]
 
+# ---- systematic sweeps (families random generation rarely isolates) -----------------------------------------------------
+SWEEP_KEYS = ['a', '0', '00', '-1', '-', '$', ' ', 'é', '\U0001d4b3', '²', '٣', '１', 'a b', "'", '"', '+1', '1_0',
+              '.', '..', 'a.b', '.a', 'a.', '0.7', '[0]', '[-1]', '[a]', '[]', '[[]]', '[.]', 'a[0]', 'a[0].b', '[a].[b]', '[²]',
+              0, 1, -1, 10, -12, 2 ** 64]
+NEIGHBOURS = ['n', 'x.y', '[z]', 7]
+
+def sweep_paths():
+  """every key shape x position (alone / first / middle / last) x neighbour kind"""
+  out = []
+  for k in SWEEP_KEYS:
+    out.append([k])
+    for n1 in NEIGHBOURS:
+      out.append([k, n1]); out.append([n1, k])
+      for n2 in NEIGHBOURS:
+        out.append([n1, k, n2])
+  return out
+
+def sweep_values():
+  """every key shape as a dict key x context (root dict / dict in a list / below a delimiter key / next to the entries its
+  split form would address) x child kind (leaf / list / dict)"""
+  out = []
+  for k in SWEEP_KEYS:
+    if isinstance(k, int) and abs(k) > 1000: continue
+    for child in (5, [6, [7]], {'c': 8, 'd.e': {}}):
+      child = copy.deepcopy(child)
+      out.append({k: child})
+      out.append([1, {k: child, 'z': 2}])
+      out.append({'p.q': {k: child}, 'p': {'q': {'other': 3}}})
+      if isinstance(k, str):
+        # decoys: what the key would address if it were parsed as a path
+        try:
+          parts = []
+          d = 0; cur = ''
+          for ch in k:
+            if ch == '[':
+              if d == 0 and cur: parts.append(cur); cur = ''
+              elif d > 0: cur += ch
+              d += 1
+            elif ch == ']':
+              d -= 1
+              if d == 0: parts.append(int(cur) if cur.lstrip('-').isdigit() and cur.lstrip('-').isascii() else cur); cur = ''
+              elif d > 0: cur += ch
+              else: raise ValueError
+            elif ch == '.' and d == 0:
+              if cur: parts.append(cur); cur = ''
+            else: cur += ch
+          if cur: parts.append(cur)
+          if d == 0 and parts and parts != [k]:
+            decoy = 99
+            for part in reversed(parts[1:]):
+              decoy = {part: decoy} if isinstance(part, str) else ([0] * part + [decoy] if 0 <= part < 4 else {part: decoy})
+            out.append({k: child, parts[0]: decoy})
+            out.append({parts[0]: copy.deepcopy(decoy), k: copy.deepcopy(child)})
+        except ValueError:
+          pass
+  return out
+
+def sweep_set_programs():
+  """(a) aliasing: after every binary / copying operation mutate the result and look at the operands, and the converse;
+  (b) the same set of paths added in two different orders gives equal sets."""
+  # shared prefixes, and on each side a branch the other side lacks entirely and that is several keys deep
+  A = [['a', 'b', 'c'], ['a', 'b'], ['a', 'x', 0], [], [1, 'a.b'], ['u', 'v', 'w'], ['u', 'v', 'w', 't']]
+  B = [['a', 'b', 'd'], ['a', 'b', 'c', 'e'], ['a'], [1, 'a.b', 'z'], ['q'], ['n', 'm', 'k'], ['n', 'm', 'k', 'j'], ['a', 'y', 'z', 'w']]
+  muts = [['a', 'b', 'c', 'new'], ['a', 'b'], ['a', 'b', 'd'], [], ['n', 'm', 'new'], ['n', 'm', 'k'], ['u', 'v', 'new'], ['u', 'v', 'w'],
+          ['a', 'y', 'z', 'new'], ['a', 'y', 'z', 'w']]
+  progs = []
+  fill = [[0, 0, 0, 0, p, 0] for p in A] + [[0, 1, 0, 0, p, 0] for p in B]
+  for code in (6, 7, 8, 9, 10, 11, 12, 17):
+   for (x, y) in ((0, 1), (1, 0)):
+    for m in muts:
+      for target in (0, 1, 2):
+        op = [code, x, y, 2, ['r'] if code == 17 else [], 0]
+        progs.append(fill + [op, [0, target, 0, 0, m, 0], [15, 0, 0, 0, [], 0], [15, 1, 0, 0, [], 0], [15, 2, 0, 0, [], 0],
+                             [1, target, 0, 0, m, 0], [1, (target + 1) % 3, 0, 0, ['a', 'b', 'c'], 0], [13, 0, 2, 0, [], 0], [13, 1, 2, 0, [], 0]])
+  import itertools
+  paths = [['a', 'b'], ['a'], ['a', 'b', 0], ['a.b'], [0, 'a'], []]
+  for perm in list(itertools.permutations(range(len(paths))))[::37]:
+    progs.append([[0, 0, 0, 0, p, 0] for p in paths] + [[0, 1, 0, 0, paths[i], 0] for i in perm] +
+                 [[13, 0, 1, 0, [], 0], [7, 0, 1, 0, [], 0], [14, 0, 0, 0, [], 0], [8, 1, 1, 0, [], 0], [15, 1, 0, 0, [], 0]])
+  return progs
+
 def nontrivial_keys(keys):
   return any((isinstance(k, int) and (k < 0 or k > 9)) or (isinstance(k, str) and (not k.isascii() or any(c in k for c in '.[]-0123456789'))) for k in keys)
 
@@ -1019,8 +1100,9 @@ def run(ctx):
   oracle_jobs = []    # (fn, args)
 
   # (A) format / round trip on key lists
-  paths = [list(a) for tr3 in CORPUS_ORDER for a in tr3]
-  n = ctx.scale(1500, 25000)
+  paths = [list(a) for tr3 in CORPUS_ORDER for a in tr3] + sweep_paths()
+  ctx.extra['systematic_sweeps'] = dict(key_shapes=len(SWEEP_KEYS), path_contexts=len(sweep_paths()), value_contexts=len(sweep_values()), set_programs=len(sweep_set_programs()))
+  n = len(paths) + ctx.scale(1500, 25000)
   while len(paths) < n:
     paths.append(gen_path(rng))
   seen_fmt = {}
@@ -1080,7 +1162,7 @@ def run(ctx):
     ctx.hist('order_pair_kinds', pair_kind(a, b))
     oracle_jobs.append((oracle_order, (a, b, c)))
   # (D) KeyPathSet op sequences
-  seqs = [s for s in CORPUS_SETS]
+  seqs = [s for s in CORPUS_SETS] + sweep_set_programs()
   for _ in range(ctx.scale(1500, 20000)):
     seqs.append(gen_set_ops(rng))
   for ops in seqs:
@@ -1090,7 +1172,7 @@ def run(ctx):
     add([5, int(dollar), [[c, r, r2, r3, epath(p), fl] for c, r, r2, r3, p, fl in ops]], out, 'set', len(ops) >= 3, dict(op='KeyPathSet ops', ops=ops))
     oracle_jobs.append((oracle_set, (ops,)))
   # (E) nested values: lookup, traverse, pg.traverse, pg.query, flatten, canonicalize
-  values = list(CORPUS_VALUES)
+  values = list(CORPUS_VALUES) + sweep_values()
   for _ in range(ctx.scale(450, 6000)):
     v = gen_value(rng, rng.choice([1, 2, 2, 3, 3, 4]), int_keys=rng.choice([0.0, 0.15, 0.4]))
     for _ in range(3):                       # few bare leaves at the root
